@@ -90,7 +90,7 @@ def judge_c02(ctx, funcs, segs, outs, meta):
             if step["how"] == "shelve":
                 ctx.count("shelved_calls")
             fp = repr(p["v"])
-            key = (step["f"], step.get("holder") if f["kind"] == "method" else None)
+            key = (step["f"], step.get("holder") if f["kind"] in ("method", "classmethod") else None)
             if fp not in seen_fp.setdefault(key, set()):
                 seen_fp[key].add(fp)
                 ctx.sig((sstr, fp))
